@@ -1007,7 +1007,8 @@ pub fn run_check(spec: &CheckSpec, tier: &str, verif_seed: u64, workers: usize, 
     let mut reported: Vec<Value> = Vec::new();
     let mut known_lines: BTreeSet<String> = BTreeSet::new();
     let mult = if tier == "thorough" { 40.0 } else { 1.0 } * scale;
-    let wall_budget = if tier == "thorough" { 1500.0 } else { 170.0 } / spec.harnesses.len() as f64;
+    // per harness; properties with many harnesses get at least 30 s each in the quick tier
+    let wall_budget = (if tier == "thorough" { 1500.0 } else { 170.0 } / spec.harnesses.len() as f64).max(if tier == "thorough" { 200.0 } else { 30.0 });
     for h in &spec.harnesses {
         let total = ((h.quick_runs() as f64) * mult).max(16.0) as u64;
         let batch = (total / (workers as u64 * 4)).clamp(16, 1500);
@@ -1113,6 +1114,7 @@ pub fn write_evidence(spec: &CheckSpec, tier: &str, verif_seed: u64, outcomes: &
             "wall_s": o.wall_s,
         }));
     }
+    let pr = |names: &[&str]| -> u64 { names.iter().map(|n| total.probes.get(*n).copied().unwrap_or(0)).sum() };
     let mut samples = total.samples.clone();
     if samples.is_empty() {
         samples.push(json!("no nontrivial sample recorded"));
@@ -1132,7 +1134,11 @@ pub fn write_evidence(spec: &CheckSpec, tier: &str, verif_seed: u64, outcomes: &
             "yield_points": total.steps,
             "context_switches": total.switches,
             "decision_points": total.decisions,
-            "fault_counts": {"stale_load": total.stale_reads, "write_split": total.splits, "thread_kill": total.kills, "cas_spurious_fail": total.cas_spurious, "harness_fault_choice": total.chooses},
+            "fault_counts": {"stale_load": total.stale_reads, "write_split": total.splits, "thread_kill": total.kills, "cas_spurious_fail": total.cas_spurious, "harness_fault_choice": total.chooses,
+                "relocation": pr(&["relocations", "management_block_relocated"]),
+                "system_call_failure": pr(&["fault_fired_inside_send", "subscriber_creation_failed_under_fault", "request_failed_under_fault"]),
+                "process_kill": pr(&["victim_killed", "cleaner_killed_inside_cleanup"]),
+                "clock_jump_or_advance": pr(&["clock_advanced_inside_callback"])},
             "probes": total.probes,
             "per_harness": per,
             "components": components,
